@@ -198,9 +198,9 @@ func (s *sim) drawCfg() {
 		in.applyAt = make([]int64, s.n)
 		s.ins = append(s.ins, in)
 	}
-	c.Log("cfg", "n=%d k=%d policy=%d ntable=%d w=%v ttlPm=%d badPm=%d hot=%d base=%d", s.n, s.k, s.policy, s.ntable, g.w, g.ttlPm, g.badPm, g.hot, g.ts)
+	s.lg("cfg", "n=%d k=%d policy=%d ntable=%d w=%v ttlPm=%d badPm=%d hot=%d base=%d", s.n, s.k, s.policy, s.ntable, g.w, g.ttlPm, g.badPm, g.hot, g.ts)
 	for _, in := range s.ins {
-		c.Log("icfg", "%d %+v", in.idx, in.cfg)
+		s.lg("icfg", "%d %+v", in.idx, in.cfg)
 	}
 }
 
@@ -263,7 +263,7 @@ func (s *sim) bubble() {
 	for i := 0; i < s.n; i++ {
 		r := s.g.one(i)
 		s.log = append(s.log, r)
-		c.Log("req."+r.name, "%d id=%d ts=%d %s", i, r.id, r.ts, r.String())
+		s.lg("req."+r.name, "%d id=%d ts=%d %s", i, r.id, r.ts, r.String())
 	}
 
 	// ---- sync points
@@ -350,12 +350,12 @@ func (s *sim) ensure(in *inst) bool {
 	os.MkdirAll(in.dir, 0755)
 	if err := s.open(in); err != nil {
 		in.dead = "open: " + err.Error()
-		s.c.Log("open.fail", "%d %v", in.idx, err)
+		s.lg("open.fail", "%d %v", in.idx, err)
 		s.c.Count("infra.open_fail", 1)
 		return false
 	}
 	in.firstApplyAt = s.now()
-	s.c.Log("open", "%d eng=%s at=%d", in.idx, in.cfg.eng, s.now()-bubbleEpoch)
+	s.lg("open", "%d eng=%s at=%d", in.idx, in.cfg.eng, s.now()-bubbleEpoch)
 	return true
 }
 
@@ -440,7 +440,13 @@ func (s *sim) applyCall(in *inst, ents []entry, replay bool) {
 	defer func() {
 		if e := recover(); e != nil {
 			in.dead = fmt.Sprintf("panic in apply: %v", e)
-			c.Log("apply.panic", "%d %v", in.idx, e)
+			s.lg("apply.panic", "%d %v", in.idx, e)
+			s.c.Probe("apply_panic")
+			// the process would be gone; release the write batch the handler left open so that Close can finish
+			func() {
+				defer func() { recover() }()
+				in.st.AbortBatch()
+			}()
 		}
 	}()
 	batch := in.sm.GetBatchOperator()
@@ -494,7 +500,7 @@ func (s *sim) applyCall(in *inst, ents []entry, replay bool) {
 		}
 		_, err := in.sm.ApplyRaftRequest(isReplaying, batch, rl, 1, in.nent, in.stop)
 		if err != nil {
-			c.Log("apply.err", "%d %v", in.idx, err)
+			s.lg("apply.err", "%d %v", in.idx, err)
 		}
 		s.c.Events += int64(e.to - e.from)
 	}
@@ -508,12 +514,12 @@ func (s *sim) applyCall(in *inst, ents []entry, replay bool) {
 			if in.w.has[r.id] {
 				if _, dup := in.replies[i]; !dup {
 					in.replies[i] = render(in.w.got[r.id])
-					c.Log("reply", "%d req=%d %s", in.idx, i, in.replies[i])
+					s.lg("reply", "%d req=%d %s", in.idx, i, in.replies[i])
 				}
 			} else if in.w.reg[r.id] {
 				// a registered waiter that never got an answer: the client would hang
 				in.replies[i] = "<no reply>"
-				c.Log("reply.none", "%d req=%d", in.idx, i)
+				s.lg("reply.none", "%d req=%d", in.idx, i)
 			}
 		}
 	}
@@ -531,7 +537,7 @@ func (s *sim) stepApply(in *inst, target int) {
 		ents = append(ents, e)
 		pos = e.to
 	}
-	s.c.Log("apply", "%d [%d,%d) entries=%d at=%d", in.idx, in.applied, pos, len(ents), s.now()-bubbleEpoch)
+	s.lg("apply", "%d [%d,%d) entries=%d at=%d", in.idx, in.applied, pos, len(ents), s.now()-bubbleEpoch)
 	if len(ents) > 1 || ents[0].to-ents[0].from > 1 {
 		s.partitionsDiffer = true
 	}
@@ -607,7 +613,7 @@ func (s *sim) stepSleep() {
 			}
 		}
 	}
-	s.c.Log("sleep", "%d", int64(d))
+	s.lg("sleep", "%d", int64(d))
 	time.Sleep(d)
 	synctest.Wait()
 	if s.policy == common.LocalDeletion {
@@ -626,7 +632,7 @@ func (s *sim) stepSleep() {
 						in.taint[k] = in.applied
 					}
 					s.c.Probe("local_deletion_fired")
-					s.c.Log("localdel", "%d %s when=%d pos=%d", in.idx, k, e.when, in.applied)
+					s.lg("localdel", "%d %s when=%d pos=%d", in.idx, k, e.when, in.applied)
 				}
 			}
 		}
@@ -639,18 +645,18 @@ func (s *sim) stepBackup(in *inst) {
 	}
 	si, err := in.sm.GetSnapshot(1, uint64(in.applied))
 	if err != nil {
-		s.c.Log("backup.fail", "%d %v", in.idx, err)
+		s.lg("backup.fail", "%d %v", in.idx, err)
 		return
 	}
 	_, err = si.GetResult()
 	synctest.Wait()
 	if err != nil {
-		s.c.Log("backup.fail", "%d %v", in.idx, err)
+		s.lg("backup.fail", "%d %v", in.idx, err)
 		return
 	}
 	in.ckpt = in.applied
 	s.c.Probe("checkpoint_taken")
-	s.c.Log("backup", "%d pos=%d", in.idx, in.applied)
+	s.lg("backup", "%d pos=%d", in.idx, in.applied)
 }
 
 func (s *sim) stepRestore(in *inst) {
@@ -664,14 +670,14 @@ func (s *sim) stepRestore(in *inst) {
 	synctest.Wait()
 	if err != nil {
 		in.dead = "restore: " + err.Error()
-		s.c.Log("restore.fail", "%d %v", in.idx, err)
+		s.lg("restore.fail", "%d %v", in.idx, err)
 		s.c.Count("infra.restore_fail", 1)
 		return
 	}
 	s.restores++
 	s.c.Probe("restore_at_cut")
 	s.c.Fault("restart")
-	s.c.Log("restore", "%d to=%d replay=(%d,%d]", in.idx, in.ckpt, in.ckpt, in.applied)
+	s.lg("restore", "%d to=%d replay=(%d,%d]", in.idx, in.ckpt, in.ckpt, in.applied)
 	// replay the instance's own entries after the checkpoint, regrouped into apply calls
 	var todo []entry
 	for _, e := range in.ents {
@@ -704,14 +710,14 @@ func (s *sim) stepReopen(in *inst) {
 	synctest.Wait()
 	if err := s.open(in); err != nil {
 		in.dead = "reopen: " + err.Error()
-		s.c.Log("reopen.fail", "%d %v", in.idx, err)
+		s.lg("reopen.fail", "%d %v", in.idx, err)
 		s.c.Count("infra.reopen_fail", 1)
 		return
 	}
 	s.reopens++
 	s.c.Probe("reopen_at_cut")
 	s.c.Fault("restart")
-	s.c.Log("reopen", "%d pos=%d", in.idx, in.applied)
+	s.lg("reopen", "%d pos=%d", in.idx, in.applied)
 }
 
 func tableOfItem(key string) string {
@@ -772,7 +778,7 @@ func (s *sim) compareAt(pos int) {
 	for i, in := range live {
 		logical[i] = logicalDump(in.st, s.ntable)
 		phys[i] = physicalDump(in.st)
-		c.Log("dump", "%d pos=%d at=%d items=%d phys=%d h=%x", in.idx, pos, now-bubbleEpoch, len(logical[i]), len(phys[i]), hashDump(logical[i]))
+		s.lg("dump", "%d pos=%d at=%d items=%d phys=%d h=%x", in.idx, pos, now-bubbleEpoch, len(logical[i]), len(phys[i]), hashDump(logical[i]))
 	}
 	c.Probe("dump_compared")
 	// physical entries that depend on when the HyperLogLog write cache was flushed
@@ -896,6 +902,30 @@ func (s *sim) compareReplies() {
 	}
 }
 
+// checkDead: a panic of the apply path kills the replica. When every replica
+// dies at the same request it is a function of the log (C11's subject, not
+// C07's); a replica that survives what killed another one is a divergence.
+func (s *sim) checkDead() {
+	c := s.c
+	var dead, alive []*inst
+	for _, in := range s.ins {
+		if strings.HasPrefix(in.dead, "panic") {
+			dead = append(dead, in)
+			s.lg("dead", "%d %s", in.idx, in.dead)
+			c.Violate("C11", "apply-panic", "", "instance %d: %s", in.idx, in.dead)
+		} else if in.dead == "" && in.sm != nil {
+			alive = append(alive, in)
+		}
+	}
+	for _, d := range dead {
+		for _, a := range alive {
+			if a.applied > d.applied {
+				c.Violate("C07", "panic-differs", "", "instance %d died applying request %d.. (%s), instance %d applied the same log up to %d without dying", d.idx, d.applied, d.dead, a.idx, a.applied)
+			}
+		}
+	}
+}
+
 func (s *sim) finish() {
 	c := s.c
 	// clock offset between instances: largest difference of the instants at which the same request was applied
@@ -923,15 +953,7 @@ func (s *sim) finish() {
 	if s.maxOffset >= int64(24*time.Hour) {
 		c.Probe("clock_offset_ge_1d")
 	}
-	for _, in := range s.ins {
-		if in.dead != "" {
-			c.Log("dead", "%d %s", in.idx, in.dead)
-			if strings.HasPrefix(in.dead, "panic") {
-				// a malformed-command panic is C11's subject; all replicas of a real group would die alike
-				c.Violate("C11", "apply-panic", "", "instance %d: %s", in.idx, in.dead)
-			}
-		}
-	}
+	s.checkDead()
 	c.NonTrivial = s.n >= 30 && s.partitionsDiffer && s.batchedCalls > 0 &&
 		(s.maxOffset >= int64(time.Second) || s.reopens+s.restores > 0)
 	var sample []string
@@ -944,4 +966,14 @@ func (s *sim) finish() {
 	}
 	c.Sample = map[string]interface{}{"n": s.n, "policy": int(s.policy), "instances": ics, "log_head": sample,
 		"max_clock_offset_s": s.maxOffset / int64(time.Second), "reopens": s.reopens, "restores": s.restores}
+}
+
+var traceOn = os.Getenv("SMSIM_TRACE") != ""
+
+// lg records a trace line (and echoes it when SMSIM_TRACE is set: debugging aid for runs that hang).
+func (s *sim) lg(kind string, format string, args ...interface{}) {
+	s.c.Log(kind, format, args...)
+	if traceOn {
+		fmt.Fprintf(core.Stdout, "%s %s\n", kind, fmt.Sprintf(format, args...))
+	}
 }
